@@ -144,6 +144,8 @@ type SimPeer struct {
 	// latest handshake completed.
 	clientTipAtHandshake int32
 	handshakeAt          time.Time
+	// servedOK: block requests answered with the true block.
+	servedOK int
 	// clientCuts: established connections to this node that the client
 	// closed on its own.
 	clientCuts int
@@ -623,13 +625,17 @@ func (p *SimPeer) onGetCFHeaders(m *wire.MsgGetCFHeaders) {
 	out := wire.NewMsgCFHeaders()
 	out.FilterType = m.FilterType
 	out.StopHash = m.StopHash
+	prevLie := false
 	if m.StartHeight > 0 {
 		out.PrevFilterHeader = p.filterHeader(chain[m.StartHeight-1])
+		// An answer built on a false previous filter header is as
+		// provably false as one with a false hash inside.
+		prevLie = out.PrevFilterHeader != p.w.tree.FilterHeader(chain[m.StartHeight-1])
 	}
 	if p.cfAsked == nil {
 		p.cfAsked = map[int32]bool{}
 	}
-	lied := false
+	lied := prevLie
 	from, to := int32(m.StartHeight), stop.Height
 	for h := from; h <= to; h++ {
 		if p.lieAt(chain[h]) != lieNone {
@@ -725,6 +731,7 @@ func (p *SimPeer) serveBlock(h chainhash.Hash) {
 	nonCB := len(msg.Transactions) > 1
 	switch kind {
 	case blkHonest:
+		p.servedOK++
 	case blkSilent:
 		return
 	case blkOther:
